@@ -176,7 +176,9 @@ func c01(c *ev.Ctx) {
 			c.Case(exprScript(e, gast.Minimal)+fmt.Sprint(noOpt), true)
 			runExprCase(c, id, "constant integer arithmetic", e, nil, nil, noOpt)
 		}
-		c.SampleEvery(i, func() interface{} { return map[string]string{"script": exprScript(e, gast.Minimal), "kind": "constant arithmetic"} })
+		c.SampleEvery(i, func() interface{} {
+			return map[string]string{"script": exprScript(e, gast.Minimal), "kind": "constant arithmetic"}
+		})
 	})
 
 	// random nestings
